@@ -32,6 +32,11 @@ def write_conf(work, fmt, out, chain=None):
         f.write('[snoopy]\nmessage_format = "%s"\noutput = %s\n' % (fmt, out))
         if chain:
             f.write('filter_chain = "%s"\n' % chain)
+        else:
+            f.write('filter_chain = "noop;only_uid:0"\n')
+        # every option parser runs under concurrency (each call re-parses the file)
+        f.write('syslog_facility = local3\nsyslog_level = LOG_DEBUG\nsyslog_ident = "id-%{pid}"\ndatasource_message_max_length = 4k\n'
+                'log_message_max_length = 8k\nerror_logging = no\n')
     return conf
 
 
@@ -142,11 +147,38 @@ def stress_run(arg):
     outspec = {"file": "file:" + logp, "noop": "noop", "devnull": "devnull", "socket": "socket:" + sockp, "devlog": "devlog"}[out]
     conf = write_conf(work, fmt, outspec, chain[0] if chain else None)
     exe = os.path.join(HBIN, "vthreads-tsan" if kind == "tsan" else "vthreads")
+    dsock = None
+    if out == "devlog" and kind != "tsan":
+        import socket
+        dsock = socket.socket(socket.AF_UNIX, socket.SOCK_DGRAM)
+        dsock.bind(os.path.join(work, "devlogsock"))
+        dsock.setsockopt(socket.SOL_SOCKET, socket.SO_RCVBUF, 64 * 1024 * 1024)
+        dsock.setblocking(False)
     env = {"PATH": "/usr/bin:/bin", "LD_PRELOAD": "%s %s" % (bld.lib, os.path.join(HBIN, "libvrec.so")), "LOGNAME": "lg", "HOME": "/root", "TZ": "UTC",
-           "VREC_DEVLOG": os.path.join(work, "nodevlog"),
+           "VREC_DEVLOG": os.path.join(work, "devlogsock" if dsock else "nodevlog"),
            "TSAN_OPTIONS": "halt_on_error=0:report_signal_unsafe=0:log_path=%s/tsan:history_size=4" % work}
+    drained = []
+    stop = []
+    if dsock is not None:
+        import threading
+
+        def drain():
+            import select
+            while not stop:
+                rl, _, _ = select.select([dsock], [], [], 0.05)
+                if rl:
+                    try:
+                        while True:
+                            drained.append(dsock.recv(65536))
+                    except OSError:
+                        pass
+        th_ = threading.Thread(target=drain)
+        th_.start()
     r = subprocess.run([exe, "--mount", "%s:%s" % (conf, SYSCONF), "--threads", str(nt), "--calls", str(ncalls), "--seed", str(seed), "--out", os.path.join(work, "issued")],
                        env=env, capture_output=True, timeout=1800, cwd=work)
+    if dsock is not None:
+        stop.append(1)
+        th_.join()
     F = Findings(PROP)
     st = dict(stress_runs=1, stress_calls=nt * ncalls, tsan_reports=0, concurrent_runs=0)
     wit = dict(kind=kind, threads=nt, calls=ncalls, format=fmt, output=out, seed=seed, filter_chain=chain)
@@ -182,6 +214,26 @@ def stress_run(arg):
             F.violation(key, "ThreadSanitizer report with format %s output %s, %d threads: %s" % (fmt[:50], out, nt, (fns[:3] or ["?"])), dict(wit, report=b[:5000]))
         if r.returncode not in (0, 66) and not reps:
             F.violation("C09:stress:crash:rc%d" % r.returncode, "TSan threads driver died (rc %d) without a report" % r.returncode, dict(wit, stderr=r.stderr.decode("latin-1")[-500:]))
+    if dsock is not None:
+        # every datagram must carry the configured priority (local3|debug = 159) and ident: a value parsed concurrently by
+        # another thread must not leak into this thread's record
+        n_ok = n_bad = 0
+        bad_example = None
+        while True:
+            try:
+                drained.append(dsock.recv(65536))
+            except OSError:
+                break
+        for d in drained:
+            if d.startswith(b"<159>id-"):
+                n_ok += 1
+            else:
+                n_bad += 1
+                bad_example = bad_example or d[:80]
+        dsock.close()
+        st["devlog_datagrams"] = n_ok + n_bad
+        if n_bad:
+            F.violation("C09:stress:devlog-frame-differs", "%d of %d devlog records do not carry the configured priority/ident <159>id-... under %d threads, e.g. %r" % (n_bad, n_ok + n_bad, nt, bad_example), wit)
     if out == "file" and fmt == FMT and threads:
         try:
             with open(logp, errors="replace") as fh:
@@ -245,6 +297,9 @@ def main():
             idx += 1
     for i in range(6 if tr == "quick" else 60):
         sj.append((bld, "plain", rng.choice([2, 8, 32, 64]), 200, FMT, "file", rng.randrange(1, 10**6), root, idx))
+        idx += 1
+    for i in range(4 if tr == "quick" else 30):
+        sj.append((bld, "plain", rng.choice([8, 16, 32]), 2000, "%{cmdline}", "devlog", rng.randrange(1, 10**6), root, idx))
         idx += 1
     # filter chains with several elements under real concurrency (the chain walker must not share state between threads)
     for i in range(8 if tr == "quick" else 80):
